@@ -359,6 +359,180 @@ func evalPipeline(s siscript.Script) ev.Result {
 	return siscript.Eval(s)
 }
 
+// ---- abort while a device module callback is still running ---------------------------------
+
+type abortCase struct {
+	Cfg     int    `json:"cfg"`
+	Module  string `json:"module"`  // what the device module does in Receive: yield-then-wait | yield-then-long-sleep | bigwrite-then-wait
+	Fault   string `json:"fault"`   // what happens to a DeviceServiceInfo (68) request: req-lost | resp-lost | error255
+	At      int    `json:"at"`      // ordinal of the 68 request the fault hits
+	DelayMs int    `json:"delayms"` // the module starts blocking after this delay
+}
+
+type waitingModule struct {
+	kind    string
+	delay   time.Duration
+	started chan struct{}
+	once    sync.Once
+}
+
+func (m *waitingModule) Transition(bool) error { return nil }
+func (m *waitingModule) Receive(ctx context.Context, name string, body io.Reader, respond func(string) io.Writer, yield func()) error {
+	_, _ = io.Copy(io.Discard, body)
+	if name != "go" {
+		return nil
+	}
+	time.Sleep(m.delay)
+	switch m.kind {
+	case "yield-then-wait", "yield-then-long-sleep":
+		_, _ = respond("x").Write([]byte{0x01})
+		yield()
+	case "bigwrite-then-wait":
+		_, _ = respond("x").Write(bytes.Repeat([]byte{0x41}, 3000)) // more than one MTU: the send loop is busy
+	}
+	m.once.Do(func() { close(m.started) })
+	// a long-running operation that honours its context (a transfer, a command): it ends when the
+	// context is cancelled, or after a long time on its own
+	switch m.kind {
+	case "yield-then-long-sleep":
+		select {
+		case <-ctx.Done():
+		case <-time.After(45 * time.Second):
+		}
+	default:
+		<-ctx.Done()
+	}
+	return ctx.Err()
+}
+func (m *waitingModule) Yield(context.Context, func(string) io.Writer, func()) error { return nil }
+
+// evalAbort: when the exchange fails while a device module is in the middle of a long
+// operation, fdo.TO2 must come back with an error promptly (it cancels the module's
+// context) instead of waiting for the module or hanging.
+func evalAbort(c abortCase) ev.Result {
+	cfgList := []deploy.Config{{Key: "P-256", Enc: "x509", Kex: "ECDH256", Cipher: "A128GCM"}, {Key: "P-384", Enc: "x5chain", Kex: "ECDH384", Cipher: "COSEAES256CBC"}}
+	cfg := cfgList[((c.Cfg%len(cfgList))+len(cfgList))%len(cfgList)]
+	ctx, cancel := context.WithTimeout(context.Background(), 120*time.Second)
+	defer cancel()
+	svc := deploy.NewMemService("aio", deploy.KeyOwner1)
+	svc.AutoExtendTo = deploy.OwnerPublic(cfg, deploy.KeyOwner1)
+	tr, _ := cbor.Marshal(true)
+	svc.Modules.Factory = func(context.Context) []deploy.NamedModule {
+		return []deploy.NamedModule{{Name: "waiter", Mod: &deploy.ScriptOwnerModule{ModName: "waiter", Steps: []deploy.OwnerStep{
+			{Send: []deploy.KVMsg{{Name: "active", Body: tr}}},
+			{Send: []deploy.KVMsg{{Name: "go", Body: tr}}},
+			{}, {}, {}, {}, {}, {Done: true},
+		}}}}
+	}
+	dev := deploy.NewDevice(cfg, deploy.KeyDevice)
+	wm := &waitingModule{kind: c.Module, delay: time.Duration(min(max(c.DelayMs, 0), 50)) * time.Millisecond, started: make(chan struct{})}
+	dev.Modules = map[string]serviceinfo.DeviceModule{"waiter": wm}
+	if err := dev.DI(ctx, deploy.NewLink(svc)); err != nil {
+		return ev.Failf("setup", "DI: %v", err)
+	}
+	link := deploy.NewLink(svc)
+	var mu sync.Mutex
+	n68 := 0
+	var faultAt time.Time
+	at := min(max(c.At, 0), 6)
+	fire := func() bool {
+		// the fault hits the first 68 at or after ordinal `at` that is sent once the module is busy
+		select {
+		case <-wm.started:
+		default:
+			return false
+		}
+		mu.Lock()
+		defer mu.Unlock()
+		if !faultAt.IsZero() || n68 < at {
+			return false
+		}
+		faultAt = time.Now()
+		return true
+	}
+	link.OnRequest = func(ex *deploy.Exchange) *deploy.Action {
+		if ex.ReqType != 68 {
+			return nil
+		}
+		mu.Lock()
+		n68++
+		mu.Unlock()
+		if c.Fault == "req-lost" && fire() {
+			return &deploy.Action{DropErr: deploy.ErrDropped}
+		}
+		return nil
+	}
+	link.OnResponse = func(ex *deploy.Exchange) *deploy.Action {
+		if ex.ReqType != 68 {
+			return nil
+		}
+		switch c.Fault {
+		case "resp-lost":
+			if fire() {
+				return &deploy.Action{DropErr: deploy.ErrDropped}
+			}
+		case "error255":
+			if fire() {
+				t255, st := uint8(255), 500
+				return &deploy.Action{Body: []byte{0x85, 0x19, 0x01, 0xf4, 0x18, 0x44, 0x60, 0x00, 0x00}, MsgType: &t255, Status: st}
+			}
+		}
+		return nil
+	}
+	done := make(chan error, 1)
+	go func() { _, err := dev.TO2(ctx, link, nil); done <- err }()
+	tag := fmt.Sprintf("%s/%s module=%s fault=%s at=%d delay=%dms", cfg.Key, cfg.Cipher, c.Module, c.Fault, at, c.DelayMs)
+	// wait for TO2 to return (or for the watchdog after the fault)
+	finished := func(err error) ev.Result {
+		mu.Lock()
+		fa := faultAt
+		mu.Unlock()
+		if fa.IsZero() {
+			if os.Getenv("VERIF_DEBUG") != "" {
+				fmt.Fprintf(os.Stderr, "DEBUG %s: ended before the fault: err=%v\n", tag, err)
+			}
+			if err == nil {
+				return ev.Trivial("abort/completed-before-fault")
+			}
+			return ev.Trivial("abort/ended-before-fault")
+		}
+		if err == nil {
+			return ev.Failf("abort-success", "%s: TO2 reported success although a DeviceServiceInfo exchange failed", tag)
+		}
+		res := ev.OK(fmt.Sprintf("abort/%s/%s/returned<%s", c.Module, c.Fault, map[bool]string{true: "1s", false: "20s"}[time.Since(fa) < time.Second]))
+		res.ID = tag
+		return res
+	}
+	notReached := time.After(15 * time.Second)
+	for {
+		mu.Lock()
+		fa := faultAt
+		mu.Unlock()
+		if !fa.IsZero() {
+			break
+		}
+		select {
+		case err := <-done:
+			return finished(err)
+		case <-notReached:
+			cancel()
+			return ev.Trivial("abort/fault-not-reached")
+		case <-time.After(5 * time.Millisecond):
+		}
+	}
+	select {
+	case err := <-done:
+		return finished(err)
+	case <-time.After(20 * time.Second):
+		cancel()
+		select {
+		case <-done:
+		case <-time.After(10 * time.Second):
+		}
+		return ev.Failf("hang:abort:"+c.Module, "%s: 20 s after the exchange failed fdo.TO2 had not returned (it waits for a device module that only ends when its context is cancelled)", tag)
+	}
+}
+
 func TestC19(t *testing.T) {
 	r := ev.Start(t, "C19")
 	defer r.Finish()
@@ -404,6 +578,11 @@ func TestC19(t *testing.T) {
 		s.Extra = min(s.Extra, 10)
 		return s
 	}, evalPipeline)
+	r.SetRule("abort", "device-side TO2 with a module that is in the middle of a long operation honouring its context (it has yielded, or written 3000 bytes, so the exchange goes on, and then blocks until its context is cancelled or sleeps 45 s) when a DeviceServiceInfo exchange fails (request lost / response lost / error message) at the 0th..3rd message after the module became busy, with 0..50 ms of delay. Oracle: fdo.TO2 returns an error within 20 s of the failure (verdict re-evaluated before it counts), never success. All non-trivial.")
+	ev.Rapid(r, "abort", ev.N{Quick: 96, Thorough: 3000}, func(t *rapid.T) abortCase {
+		return abortCase{Cfg: rapid.IntRange(0, 1).Draw(t, "cfg"), Module: rapid.SampledFrom([]string{"yield-then-wait", "yield-then-wait", "yield-then-long-sleep", "bigwrite-then-wait"}).Draw(t, "module"),
+			Fault: rapid.SampledFrom([]string{"req-lost", "resp-lost", "error255"}).Draw(t, "fault"), At: rapid.IntRange(0, 3).Draw(t, "at"), DelayMs: rapid.SampledFrom([]int{0, 0, 1, 10, 50}).Draw(t, "delay")}
+	}, evalAbort)
 	ev.CheckWitness(r, "fleets", evalFleet)
 	ev.CheckWitness(r, "pipeline", evalPipeline)
 }
